@@ -145,6 +145,42 @@ def run(ctx):
             shutil.rmtree(root, ignore_errors=True)
     finally:
         vh.close()
+    concurrent(ctx, 200 if quick else 20000)
+
+
+def concurrent(ctx, per):
+    """the two usage indexes (usages per file, read by go-to-definition / the CLI count; usage_by_fixture, read by
+    references / lenses / incoming calls) are updated by concurrent analyses of different files: under seeded
+    schedules at shard-lock granularity the final pair of indexes must be one a sequential order produces"""
+    import itertools
+    from .c09 import SCENARIOS
+    from ..common import hash_str
+    from ..vh import VHDied
+    vh = VH(vh_bin(), locklog=os.path.join(ctx.scratch_root, "lock_vh2.log"), env={"VERIF_SHARDS": "2"})
+    try:
+        for name in ("usage_index_cleanup_vs_record", "two_removals_one_add", "reanalysis_same_content_pair"):
+            setup, threads = SCENARIOS[name]
+            allowed = set()
+            for perm in itertools.permutations(range(len(threads))):
+                r = vh.call(op="sched_scenario", setup=setup, threads=threads, seed=0, count=1, sequential=list(perm))
+                allowed |= {o["index"] for o in r["outcomes"]}
+            for mode, pct in (("uniform", None), ("pct2", 2)):
+                try:
+                    r = vh.call(op="sched_scenario", setup=setup, threads=threads, seed=ctx.seed * 7919 + hash_str(name) % 1000,
+                                count=per, pct=pct, est=120, timeout=1200)
+                except VHDied as e:
+                    raise Inconclusive(f"harness died: {e}")
+                if "distinct_schedules" not in r:
+                    raise Inconclusive(f"harness refused the scenario: {str(r)[:300]}")
+                ctx.judged(per)
+                for o in r["outcomes"]:
+                    if o["index"] not in allowed or o["invariants"]:
+                        ctx.violation({"kind": "usage-indexes-after-concurrent-analyses", "scenario": name, "mode": mode},
+                                      {"first_seed": o["first_seed"], "count": o["count"], "invariants": o["invariants"][:4]})
+                ctx.nontrivial(("concurrent", name, mode, r["distinct_schedules"] > 1))
+                ctx.count("concurrent_schedules", per)
+    finally:
+        vh.close()
 
 
 def lsp_and_cli(ctx, vh, ws):
